@@ -98,6 +98,26 @@ PROPS = {
             fuzz("load", "FuzzC05", 120),
         ],
     ),
+    "C06": dict(
+        technique="fault-injection PBT: faults from a catalogue placed in every expression context of generated acyclic scripts, against the reference interpreter up to the first error; exhaustive fault x context matrix; domain PBT of the random built-ins",
+        level_text="Generated acyclic scripts (forward jumps only) receive faulty statements from a catalogue - ill-typed operations, unknown variables/nodes/"
+                   "functions/commands, wrong argument counts and types, the null literal, a no-result host function used as a value, dice/random_range outside "
+                   "their domain (0, negative, reversed, NaN, infinities, beyond int64, overflowing ranges), type-changing and compound-on-unknown assignments, "
+                   "non-boolean conditions - in every expression context (line interpolation, option text and condition, set/compound-set right-hand side, "
+                   "if/elseif condition, jump expression, call and command arguments) at any nesting depth. No Next call may panic; the trace must equal the "
+                   "reference interpreter's up to and including the first error; 12 further Next calls must return without panic. Exhaustive: catalogue x context x "
+                   "{top level, inside a chosen option}. A separate sub-check sweeps dice/random_range over arbitrary doubles. Search, not proof.",
+        level_note="Flow after the first error is not compared (the statement only promises 'usable'). Scripts are acyclic so that no continuation can recurse without "
+                   "bound. For non-integral arguments of dice/random_range an error is demanded only when no integer reading (floor, ceiling, truncation) is valid.",
+        rule="scripts from the flow generator with faulty statements injected (about one statement in nine); non-trivial = the run reaches a fault; "
+             "random-domain: non-trivial = must-error argument or a returned value; distinct = distinct serialised cases.",
+        assumptions=["choices are in range (an out-of-range choice is outside the property's domain)", "scripts that never yield (infinite jump loops) are outside the domain"],
+        subs=[
+            rapid("faults", "TestC06Faults", 2500, 25000),
+            enum("fault-matrix", "TestC06FaultMatrix"),
+            rapid("random-domain", "TestC06RandomDomain", 20000, 200000),
+        ],
+    ),
     "C11": dict(
         technique="model-based PBT over jump histories: reference visit counter vs rendered visited()/visited_count() and Snapshot().VisitedNodes at every step; bounded all-paths enumeration",
         level_text="Jump-heavy generated scripts (2-5 nodes, self-loops and cycles, jumps by name and by expression out of nested option/if bodies, failing jumps "
